@@ -231,6 +231,15 @@ def check_free_symbols(ctx, classes):
     rets = returned_exprs(cf.node)
     appended = {norm(c.func.value) for c in body_walk(cf.node) if isinstance(c, ast.Call) and isinstance(c.func, ast.Attribute) and c.func.attr == "append"}
     ok = ok and len(rets) == 1 and norm(rets[0]) in appended
+    if not ok and len(rets) == 1:
+        # the other spelling of "each once, first appearance first": list(dict.fromkeys(<symbols in order>)) -- a dict keeps the
+        # insertion order of its keys and ignores repeated insertions
+        e = rets[0]
+        if isinstance(e, ast.Call) and dotted(e.func) == "list" and len(e.args) == 1 and isinstance(e.args[0], ast.Call) and dotted(e.args[0].func) in ("dict.fromkeys", "OrderedDict.fromkeys", "collections.OrderedDict.fromkeys") and len(e.args[0].args) == 1:
+            g = e.args[0].args[0]
+            if isinstance(g, (ast.GeneratorExp, ast.ListComp)) and len(g.generators) == 2 and not any(x.ifs for x in g.generators):
+                g0, g1 = g.generators
+                ok = norm(g0.iter) in ("self._operations", "self.operations") and norm(g1.iter) == f"{norm(g0.target)}.free_symbols" and norm(g.elt) == norm(g1.target) and count_reversals(g) == 0
     ctx.check(ok and len(rets) == 1, R4, cf.key, "first-appearance order over the operations", "Circuit.free_symbols does not list each symbol once, in order of first appearance over the operations", cf)
 
 
